@@ -682,3 +682,6 @@ package secp256k1
 
 // C10: the observers through which every history is judged belong to its cone
 //@ proptag C10: ^secp256k1\.(Element\.(Encode|EncodeUncompressed|XCoordinate|Hex|MarshalBinary|Equal|IsIdentity)|Scalar\.(Encode|IsZero|IsOne|Hex|MarshalBinary|Equal|LessOrEqual))$
+// C10 quantifies over histories of *all* API calls ("constructors, Base, Identity, Set, Copy, arithmetic ..., decoding,
+// hashing"): the remaining state-changing operations belong to its cone as well.
+//@ proptag C10: ^secp256k1\.(HashToGroup|EncodeToGroup|HashToScalar|Scalar\.(One|MinusOne|SetUInt64|Pow|Random|DecodeHex|UnmarshalBinary))$
